@@ -127,7 +127,9 @@ func foldCond(t *term) int {
 				return 0
 			}
 			if (t.name == "==" || t.name == "!=") && a.op == "sym" && b.op == "sym" {
-				isConst := func(s string) bool { return s == "true" || s == "false" || s == "nil" || strings.HasPrefix(s, "const:") }
+				isConst := func(s string) bool {
+					return s == "true" || s == "false" || s == "nil" || strings.HasPrefix(s, "const:")
+				}
 				if isConst(a.name) && isConst(b.name) {
 					if (a.name == b.name) == (t.name == "==") {
 						return 1
